@@ -17,7 +17,7 @@ static bool eligible(const std::string &kind, const Node &n) {
     Kind k = kind_of(n.td);
     if(kind == "choice0") return k == K_CHOICE && n.depth > 0 ? true : (k == K_CHOICE);
     if(kind == "nullptr") return n.slot && n.memb && !n.memb->optional && n.parent_td
-                                 && (kind_of(n.parent_td) == K_SEQUENCE || kind_of(n.parent_td) == K_SET)
+                                 && (kind_of(n.parent_td) == K_SEQUENCE || kind_of(n.parent_td) == K_SET || kind_of(n.parent_td) == K_CHOICE)   // CHOICE: the selected alternative is kept by pointer and missing
                                  && !(n.memb->flags & (ATF_OPEN_TYPE | ATF_ANY_TYPE));
     if(kind == "intval") return k == K_NATIVE_INTEGER || k == K_NATIVE_ENUMERATED || k == K_BOOLEAN;
     if(kind == "strlen" || kind == "strchar") return k == K_OCTET_STRING || k == K_STRING || k == K_BIT_STRING;
